@@ -195,6 +195,9 @@ package wallet
 
 //@ func (*Wallet).selectProofsForAmount
 //@   tags C18
+// the two selections draw from different pools - first the proofs of inactive keysets, then, for the remainder, the
+// proofs of the active keyset only - so that nothing is selected twice
+//@   calls selectProofsToSend asserts @pools [C18] (inscope(activeKeysetProofs) ==> proofs == activeKeysetProofs) && (!inscope(activeKeysetProofs) ==> proofs == inactiveKeysetProofs)
 //@   ensures @amount [C18] r1 == nil ==> psum(r0) >= amount
 //@   requires @bound [C18] w != nil && mint != nil && amount <= 2305843009213693952
 // where the two selections are joined: together they cover the amount plus BOTH input fees
